@@ -92,7 +92,12 @@ func decSrc(w *ev.Writer, kind, name string, src *boc.Cell, ptr any, where strin
 	val := reflect.ValueOf(ptr).Elem()
 	m["unique"] = !hasNonEmptyDict(val, 0)
 	if kind == "DECSRC" {
-		m["v"] = tlbx.Dump(val, "")
+		// dictionaries as [key bits, value] in ascending key order (the shape TlbDec!Dec produces); the source cell also as a
+		// structure, so that the specification's decoder can read it
+		dv := dumpDictBits(val)
+		m["v"] = dv
+		m["ds"] = canon(dv)
+		m["tj"] = tlbx.Tree(src)
 	}
 	c2, st, msg := marshal(val.Interface())
 	m["enc"] = st
@@ -127,9 +132,12 @@ func DriveC04(w *ev.Writer, o Opts) {
 			}
 			v := g.New(t)
 			c, st, msg := marshal(v.Interface())
-			m := ev.M{"k": "ENC", "type": name, "v": tlbx.Dump(v, ""), "enc": st, "tree": "", "msg": msg}
+			dv := dumpDictBits(v)
+			m := ev.M{"k": "ENC", "type": name, "v": dv, "enc": st, "tree": "", "msg": msg}
 			if st == "ok" {
 				m["tree"] = tlbx.TreeText(c)
+				m["tj"] = tlbx.Tree(c)
+				m["ds"] = canon(dv)
 			}
 			w.Emit(m)
 		}
@@ -203,5 +211,6 @@ func DriveC04(w *ev.Writer, o Opts) {
 			}
 		}
 	}
+	DriveMore(w, o)
 	w.Emit(ev.M{"k": "End", "events": w.N})
 }
